@@ -102,6 +102,17 @@ def main():
     tryit("kernels_with_annotations", kernels_with_annotations)
     tryit("gpu_annotation_breakdown", lambda: annot(True))
     tryit("cpu_annotation_breakdown", lambda: annot(False))
+    # history: the trace decoded for display (shortened names), then decoded again with the exact strings asked for: the decoded columns
+    # are the table's strings, row by row
+    def decode_exact():
+        t.decode_symbol_ids()
+        t.decode_symbol_ids(use_shorten_name=False)
+        bad = {}
+        for r in ranks:
+            df = t.get_trace(r)
+            bad[r] = int(sum(1 for a, b, c, dd in zip(df["name"], df["s_name"], df["cat"], df["s_cat"]) if sym[int(a)] != b or sym[int(c)] != dd))
+        return bad
+    tryit("decode_exact", decode_exact)
     # ranks added to ONE Trace object step by step: ids assigned in an earlier step must not move, every rank must still decode
     def incremental():
         t2 = tr.Trace(trace_files=files, trace_dir=d)
